@@ -643,13 +643,18 @@ class SpatialInertia(SMUserList):
         """
 
         if isinstance(right, SpatialAcceleration):
-            return SpatialForce(left.A @ right.A)  # F = ma
+            result = SpatialForce  # F = ma
         elif isinstance(right, SpatialVelocity):
             # crf(v(i).vw)*model.I(i).I*v(i).vw;
             # v = Wrench( a.cross() * I.I * a.vw );
-            return SpatialMomentum(left.A @ right.A)   # M = mv
+            result = SpatialMomentum   # M = mv
         else:
             raise TypeError('bad postmultiply operands for Inertia *')
+        if len(right) == 1:
+            return result(left.A @ right.A)
+        # value by value (right.A is then a list of 6-vectors, which as an array
+        # is the transpose of the 6xN matrix of columns)
+        return result(np.column_stack([left.A @ x for x in right.data]))
 
     def __rmul__(self, left):  # lgtm[py/not-named-self] pylint: disable=no-self-argument
         """
